@@ -277,12 +277,17 @@ def run(ctx):
     # quick: modules of 3 events are complete but run under the single-deviation configurations only
     full_len = n_red if not quick else 3
     jobs = [(h, "all" if len(h) <= n_all else "reduced" if len(h) <= n_red else "single") for h in hs
-            if len(h) <= full_len or h[0]["k"] in ("cpp_class", "ct_add_test")]
+            if len(h) <= full_len or h[0]["k"] in (("cpp_class",) if quick else ("cpp_class", "ct_add_test"))]
     ctx.cov["bounds"] = {"events_full_2^10": n_all, "events_reduced_product": n_red, "events_single_flag_deviations": n_single,
-                         "longest_modules_restricted_to": "first event is cpp_class or ct_add_test", "max_nesting": maxnest,
+                         "longest_modules_restricted_to": "first event is cpp_class (thorough: or ct_add_test)", "max_nesting": maxnest,
                          "flags": FLAGS, "command_case": case}
-    results = ctx.sweep(functools.partial(check_module, case=case), jobs, space="modules x configurations", chunk=2,
-                        selftest=10)
+    heavy = [j for j in jobs if j[1] == "all"]
+    light = [j for j in jobs if j[1] != "all"]
+    jobs = heavy + light
+    results = ctx.sweep(functools.partial(check_module, case=case), heavy, space="modules x all 2^10 configurations", chunk=1,
+                        selftest=2)
+    results += ctx.sweep(functools.partial(check_module, case=case), light, space="modules x configurations", chunk=16,
+                         selftest=8)
     known = sum(r["known"] for r in results)
     ctx.cov["distinct_pages"] = sum(r["ndig"] for r in results)
     if known:
